@@ -155,20 +155,25 @@ def _exec_strip(modname, case):
                                     "finding", "digest", "final_case")}
 
 
-def minimise(mod, failure, budget_s=120):
-    """Shrink the failing case while the same check id keeps failing."""
+def minimise(mod, failure, budget_s=120, repeat=1):
+    """Shrink the failing case while the same check id keeps failing
+    (`repeat` consecutive times: used when the failing behaviour of the code
+    under test turned out to be nondeterministic itself)."""
     case = failure["case"]
     check_id = failure["check_id"]
     t0 = time.time()
     evals = [0]
 
     def fails(c):
-        if time.time() - t0 > budget_s:
-            return False
-        evals[0] += 1
-        r = execute_isolated(mod, c)
-        return r["status"] == "violation" and r["check_id"] == check_id \
-            and not r.get("finding")
+        for _ in range(repeat):
+            if time.time() - t0 > budget_s:
+                return False
+            evals[0] += 1
+            r = execute_isolated(mod, c)
+            if not (r["status"] == "violation" and r["check_id"] == check_id
+                    and not r.get("finding")):
+                return False
+        return True
 
     if not fails(case):
         return None, evals[0]
@@ -317,6 +322,29 @@ def run_check(prop, tier, base_seed, runs=None, workers=None, wall_cap=None,
             exit_code = 2
             continue
         res = execute_isolated(mod, small)
+        flaky = False
+        if not (res["status"] == "violation" and res.get("check_id") == check_id):
+            # the shrunk case does not fail every time: the failing behaviour of
+            # the code under test is nondeterministic itself (e.g. it consults OS
+            # entropy); shrink again demanding three consecutive failures and fall
+            # back to the case as found
+            flaky = True
+            try:
+                small, e3 = minimise(mod, f, budget_s=60, repeat=3)
+                evals += e3
+            except farm.HarnessError:
+                small = None
+            if small is None:
+                small = f["case"]
+            for _ in range(6):
+                res = execute_isolated(mod, small)
+                if res["status"] == "violation" and res.get("check_id") == check_id:
+                    break
+            else:
+                err("HARNESS-ERROR property=%s check=%s index=%d: failure did not "
+                    "reproduce in 6 isolated re-executions" % (prop, check_id, f["index"]))
+                exit_code = 2
+                continue
         if res.get("final_case") is not None:
             small2 = res["final_case"]
             r2 = execute_isolated(mod, small2)
@@ -342,6 +370,19 @@ def run_check(prop, tier, base_seed, runs=None, workers=None, wall_cap=None,
             out("  the violation is nondeterminism between interpreter processes; the "
                 "replay reproduced it in %d of 4 further fresh attempts" % seen)
             continue
+        if flaky and (cid != check_id or dig != res["digest"]):
+            seen = 0
+            for _ in range(6):
+                c2, d2, _s = verify_replay_fresh(path)
+                seen += 1 if (c2 == check_id and d2 == res["digest"]) else 0
+            if seen:
+                violations += 1
+                out("VIOLATION property=%s replay=%s" % (prop, path))
+                out("  check=%s: %s" % (check_id, res["message"]))
+                out("  the failing behaviour is itself nondeterministic (the same case does "
+                    "not fail in every execution): the replay file reproduced it in %d of 6 "
+                    "further fresh attempts" % seen)
+                continue
         if cid != check_id or dig != res["digest"]:
             err("HARNESS-ERROR property=%s: replay of %s in a fresh "
                 "interpreter gave check_id=%s digest=%s status=%s, expected "
